@@ -14,18 +14,18 @@ EXTENDS TreeAuth
 AllEv == {"addW", "addR", "joinW", "req", "accW", "promote", "demote", "remove", "other"}
 Bd(ma, mp, mf, ev, ki, au, mu, pk, fl) ==
     [MaxAcl |-> ma, MaxParents |-> mp, MaxFill |-> mf, Events |-> ev, Kinds |-> ki, Authors |-> au,
-     Muts |-> mu, PKinds |-> pk, Filters |-> fl, FAuthors |-> {"W"}, FCites |-> "two", Shape |-> "full"]
+     Muts |-> mu, PKinds |-> pk, Filters |-> fl, FAuthors |-> {"W"}, FCites |-> "two", Shape |-> "full", Pres |-> {FALSE}]
 
 \* hist: a tree that already has one change on its root ("grown"), so that "fork" parents are inner
 \* changes; the candidate alone, or behind one valid-looking change of the *same subject author*
 \* citing any known record, or as the signature-less twin of the change unmarshalled just before
 \* (same batch / previous call)
-Hist(n)  == [Bd(n, 0, 1, AllEv, {"grown"}, {"S", "W"}, {"none", "twin"}, {"heads", "fork"}, {FALSE})
-               EXCEPT !.FAuthors = {"S", "W"}, !.FCites = "all", !.Shape = "hist"]
+Hist(n)  == [Bd(n, 0, 1, AllEv, {"grown"}, {"S", "W"}, {"none", "twin", "idAlias", "bytes"}, {"heads", "fork"}, {FALSE})
+               EXCEPT !.FAuthors = {"S", "W"}, !.FCites = "all", !.Shape = "hist", !.Pres = BOOLEAN]
 AclT(n, p) == [Bd(n, p, 1, AllEv, {"signed", "reduced"}, {"S", "W"}, {"none"},
                   {"heads", "fork", "redundant", "oldroot"}, {FALSE}) EXCEPT !.FAuthors = {"S", "W"}]
-Bytes(n, p, f) == Bd(n, p, f, {"addW", "other"}, {"signed", "derived", "reduced"}, {"S", "W", "X"},
-                     AllMuts, AllPKinds, BOOLEAN)
+Bytes(n, p, f) == [Bd(n, p, f, {"addW", "other"}, {"signed", "derived", "reduced"}, {"S", "W", "X"},
+                      AllMuts, AllPKinds, BOOLEAN) EXCEPT !.Pres = BOOLEAN]
 
 BoundsQuick    == [hist |-> Hist(4), acl |-> AclT(2, 1), bytes |-> Bytes(1, 0, 1)]
 BoundsThorough == [hist |-> Hist(6), acl |-> AclT(3, 2), bytes |-> Bytes(2, 1, 2)]
